@@ -410,6 +410,62 @@ def check_node_shape(repo: Repo, rep: Report):
         raise AnalysisError(f"only {n} `.id`/`.attr` dereferences found on the analysis path (5 on the pinned tree)")
 
 
+def check_total_helpers(repo: Repo, rep: Report, tier: str):
+    """Lookups in literal tables on the analysis path are total: `{...}[key]` with a computed key raises KeyError for the
+    keys the literal lacks, and the exception escapes check_safety instead of a verdict being returned."""
+    import math
+
+    from ..minieval import Evaluator, PyRaise, Unsupported
+
+    scope = [f for f in repo.functions.values() if f.module.name in ("fickling.analysis", "fickling.ml") or f.qualname.startswith(("fickling.fickle.Interpreter.unused", "fickling.fickle.ASTProperties", "fickling.fickle.Pickled.unsafe_imports", "fickling.fickle.Pickled.non_standard_imports"))]
+    n_sites = 0
+    for f in scope:
+        lits = {t.id: n.value for n in body_walk(f.node) if isinstance(n, ast.Assign) and isinstance(n.value, ast.Dict) for t in n.targets if isinstance(t, ast.Name)}
+        for sub in body_walk(f.node):
+            if not (isinstance(sub, ast.Subscript) and isinstance(sub.ctx, ast.Load)):
+                continue
+            cont = sub.value if isinstance(sub.value, ast.Dict) else (lits.get(sub.value.id) if isinstance(sub.value, ast.Name) else None)
+            if not isinstance(cont, ast.Dict) or isinstance(sub.slice, ast.Constant):
+                continue
+            n_sites += 1
+            keys = [k.value for k in cont.keys if isinstance(k, ast.Constant)]
+            # guarded by try/except KeyError-ish or by a membership test?
+            guarded = False
+            for t in body_walk(f.node):
+                if isinstance(t, ast.Try) and any(sub is x for b in t.body for x in ast.walk(b)) and any(h.type is None or any(nm in src(h.type) for nm in ("KeyError", "LookupError", "Exception")) for h in t.handlers):
+                    guarded = True
+                if isinstance(t, (ast.If, ast.IfExp)) and isinstance(t.test, ast.Compare) and isinstance(t.test.ops[0], ast.In) and src(t.test.left) == src(sub.slice) and any(sub is x for b in (t.body if isinstance(t, ast.If) else [t.body]) for x in ast.walk(b)):
+                    guarded = True
+            if guarded:
+                rep.ok("C19.total-helpers", f.qualname, f"`{src(sub)[:60]}` is guarded (handler / membership test)", f"{f.file}:{sub.lineno}")
+                continue
+            params = [p for p in f.params() if p not in ("self", "cls")]
+            a = f.node.args
+            ints = len(params) == 1 and all((src(x.annotation) if x.annotation is not None else "") == "int" for x in a.args if x.arg in params)
+            if not ints:
+                raise AnalysisError(f"{f.qualname}: `{src(sub)[:60]}` indexes a literal table with a computed key and the function is not a single-int helper the evaluator can enumerate (undecided)")
+            mods = [n.right.value for n in body_walk(f.node) if isinstance(n, ast.BinOp) and isinstance(n.op, (ast.Mod, ast.FloorDiv)) and isinstance(n.right, ast.Constant) and isinstance(n.right.value, int) and n.right.value > 0]
+            consts = [abs(n.value) for n in body_walk(f.node) if isinstance(n, ast.Constant) and isinstance(n.value, int) and not isinstance(n.value, bool)]
+            period = 1
+            for m in mods:
+                period = period * m // math.gcd(period, m)
+            hi = min(max(2 * period + max(consts + [0]) + 2, 64), 5000 if tier == "thorough" else 1200)
+            failing = None
+            for v in range(0, hi):
+                try:
+                    Evaluator({params[0]: v}).run_body(f.node.body)
+                except PyRaise as pe:
+                    failing = (v, pe.name)
+                    break
+                except Unsupported as e:
+                    raise AnalysisError(f"{f.qualname}: cannot interpret the helper to decide whether `{src(sub)[:60]}` is total: {e}")
+            if failing:
+                rep.bad("C19.total-helpers", f.qualname, f"partial-lookup:{src(sub.value)[:40] if not isinstance(sub.value, ast.Dict) else 'dict-literal'}", f"`{src(sub)[:80]}` has keys {keys} only: {f.name}({failing[0]}) raises {failing[1]} (the function's arithmetic is periodic with period {period}; {hi} arguments enumerated), so check_safety raises instead of returning a verdict for such a pickle", f.file, sub.lineno)
+            else:
+                rep.ok("C19.total-helpers", f.qualname, f"`{src(sub)[:60]}`: no argument in 0..{hi - 1} (two periods of the helper's modular arithmetic) misses the table", f"{f.file}:{sub.lineno}")
+    rep.ok("C19.total-helpers", "fickling/analysis path", f"{len(scope)} functions scanned: {n_sites} computed-key lookup(s) in literal tables", "")
+
+
 def run(rep: Report, tier: str):
     repo = load_repo()
     rep.explanation = (
@@ -421,7 +477,9 @@ def run(rep: Report, tier: str):
     rep.rule("C19.result-shape", "AnalysisResult(Severity member, str message, JSON-serialisable trigger)", 12)
     rep.rule("C19.report", "to_dict from severity.name/str/detailed_results; loader raises UnsafeFileError(file, result.to_dict())", 5)
     rep.rule("C19.node-shape", "node attribute dereferences are valid for every node kind fickling emits", 5)
+    rep.rule("C19.total-helpers", "computed-key lookups in literal tables on the analysis path cannot miss", 1)
     check_yields(repo, rep)
     check_result_shape(repo, rep)
     check_report(repo, rep)
     check_node_shape(repo, rep)
+    check_total_helpers(repo, rep, tier)
